@@ -62,6 +62,7 @@ def run(F, rep, tier):
     # .. and a requirement recorded on a node stays until the node is merged: a handler that removes the constraint it has just
     # checked forgets it for the next type the node meets
     constraints_are_kept(F, rep)
+    purity_is_not_rewritten(F, rep)
 
 
 def open_purity_is_not_copied(F, rep, where):
@@ -93,6 +94,63 @@ def open_purity_is_not_copied(F, rep, where):
 def pp_pat(p):
     from hir import ppat
     return ppat(p)
+
+
+def purity_is_not_rewritten(F, rep, rule="PURITY-UNIFY"):
+    """The purity of a function type is settled once - by the literal, the annotation or the declaration - and after that only
+    unification combines it.  A function type rebuilt from the parameters and result of an existing one keeps that one's purity;
+    the only rewrite is the settling of an *open* purity (the pattern names Purity::Undefined)."""
+    n = 0
+    bad = []
+    for fn in F.fns_in(TCM):
+        for m in nodes(fn_body(fn), "Match"):
+            for arm in m["arms"]:
+                for alt in pat_alternatives(arm["pat"]):
+                    for q in _subpatterns(alt):
+                        if not (q.get("k") == "TupleStruct" and (q.get("path") or "").endswith("Type::Function") and len(q.get("pats") or []) == 3):
+                            continue
+                        b_args = [b["hid"] for b in pat_bindings(q["pats"][0])]
+                        b_res = [b["hid"] for b in pat_bindings(q["pats"][1])]
+                        b_pur = [b["hid"] for b in pat_bindings(q["pats"][2])]
+                        open_only = "Purity::Undefined" in pp_pat(q["pats"][2])
+                        if not b_args or not b_res:
+                            continue
+                        for c, parents in walk(arm["body"]):
+                            if c.get("k") != "Call" or not ((callee(c) or "").endswith("Type::Function") and len(c["args"]) == 3):
+                                continue
+                            a0, a1, a2 = [peel(x) for x in c["args"]]
+                            if a0.get("hid") in b_args and a1.get("hid") in b_res:
+                                n += 1
+                                keeps = a2.get("hid") in b_pur
+                                # .. or the rewrite stands under `if matches!(<that purity>, Purity::Undefined)`
+                                under_open = any(p_.get("k") == "If" and "Purity::Undefined" in pp(p_["c"]) and
+                                                 any(x.get("hid") in b_pur for x in nodes(p_["c"], "Path")) and
+                                                 any(x is c for x in nodes(p_["t"])) for p_ in parents)
+                                if not keeps and not open_only and not under_open:
+                                    bad.append((fn, c, pp(a2)))
+    rep.ob(rule, "purity-is-never-rewritten", not bad,
+           "every function type rebuilt from the parts of another keeps its purity, or settles an open one (%d sites)" % n if not bad else
+           "%s rebuilds a function type from the parameters and result of an existing one with the purity `%s`, whatever the "
+           "original's was: an impure function loses its purity on the way (`step : pu int -> int : if up do tick else tock end` "
+           "accepts two impure functions)" % (last(bad[0][0]["_path"], 2), bad[0][2]), line_of(bad[0][1]) if bad else None)
+    rep.floor(rule, "function types rebuilt from another's parts", n, 1)
+
+
+def _subpatterns(p):
+    out, todo = [], [p]
+    while todo:
+        q = todo.pop()
+        if not isinstance(q, dict):
+            continue
+        out.append(q)
+        for y in q.get("pats") or []:
+            todo.append(y)
+        for y in q.get("fields") or []:
+            todo.append(y.get("pat") if isinstance(y, dict) and "pat" in y and "k" not in y else y)
+        for k_ in ("pat", "sub"):
+            if isinstance(q.get(k_), dict):
+                todo.append(q[k_])
+    return out
 
 
 def constraints_are_kept(F, rep, rule="UNIFY-CORE"):
